@@ -287,6 +287,10 @@ func (e *Engine) intrinsic(st *State, f *Frame, x ssa.Value, callee *ssa.Functio
 		if name == "Background" || name == "TODO" {
 			return ret(IfaceV{})
 		}
+	case "internal/stringslite", "strings":
+		if name == "Clone" {
+			return ret(args[0]) // strings are immutable: a clone is indistinguishable from the original
+		}
 	case "math/bits":
 		if r := e.mathBits(name, args); r != nil {
 			return ret(r)
@@ -329,12 +333,28 @@ func (e *Engine) intrinsic(st *State, f *Frame, x ssa.Value, callee *ssa.Functio
 	case "errors":
 		switch name {
 		case "Is":
-			e.curPoison = ""
-			t := e.eqVal(args[0], args[1])
-			if t == nil {
-				return ret(Poison{"errors.Is: " + e.curPoison})
+			// identity, or identity of the error wrapped in an `Err` field of a type with an Unwrap method
+			// (strconv.NumError, fs.PathError, net.OpError ...), up to 3 levels
+			cur := args[0]
+			res := b.False()
+			for lvl := 0; lvl < 3; lvl++ {
+				e.curPoison = ""
+				t := e.eqVal(cur, args[1])
+				if t == nil {
+					return ret(Poison{"errors.Is: " + e.curPoison})
+				}
+				res = b.Or(res, t)
+				iv, ok := cur.(IfaceV)
+				if !ok || iv.dyn == nil {
+					break
+				}
+				next, ok := e.unwrapErr(st, iv, pos)
+				if !ok {
+					break
+				}
+				cur = next
 			}
-			return ret(Scalar{t})
+			return ret(Scalar{res})
 		case "Join":
 			return ret(e.freshError(st, "errors.Join@"+e.posStr(pos)))
 		}
@@ -767,4 +787,42 @@ func (e *Engine) ufBytes(st *State, args []Val) (Val, bool, action, []*State) {
 	}
 	e.ufLog = append(e.ufLog, ufRecord{name, inArgs, outs})
 	return e.newArray(st, elems, false), true, actNext, nil
+}
+
+// unwrapErr returns the `Err` field of an error value whose type has an Unwrap method.
+func (e *Engine) unwrapErr(st *State, iv IfaceV, pos token.Pos) (Val, bool) {
+	ms := e.prog.MethodSets.MethodSet(iv.dyn)
+	has := false
+	for i := 0; i < ms.Len(); i++ {
+		if ms.At(i).Obj().Name() == "Unwrap" {
+			has = true
+		}
+	}
+	if !has {
+		return nil, false
+	}
+	t := iv.dyn
+	var sv Val = iv.v
+	if pt, ok := t.Underlying().(*types.Pointer); ok {
+		t = pt.Elem()
+		p, ok := iv.v.(Ptr)
+		if !ok || p.obj == 0 {
+			return nil, false
+		}
+		sv = e.load(st, p, pos)
+	}
+	stt, ok := t.Underlying().(*types.Struct)
+	if !ok {
+		return nil, false
+	}
+	s, ok := sv.(StructV)
+	if !ok {
+		return nil, false
+	}
+	for i := 0; i < stt.NumFields(); i++ {
+		if stt.Field(i).Name() == "Err" {
+			return s.f[i], true
+		}
+	}
+	return nil, false
 }
